@@ -55,10 +55,10 @@ Theorem assoc_meets_spec : forall c, is_assoc_fn (c_fn c) = true -> in_domain c 
 Proof.
   intros c Hf Hd. assert (Hb := Hd). split_dom Hb D2 D1 D0 D.
   unfold keywords_ok in D0. apply andb_true_iff in D0 as [K _].
-  assert (exists ks, c_seq c = SList ks) as [ks S].
+  assert (list_arg (c_seq c) = Some (elems (c_seq c))) as S.
   { destruct (c_fn c); try discriminate Hf; cbn in D; repeat (apply andb_true_iff in D as [D ?]);
-      destruct (c_seq c); try discriminate; eauto. }
-  unfold m_call, s_call, m_assoc, s_assoc. rewrite S. cbn [elems].
+      destruct (c_seq c); try discriminate; reflexivity. }
+  unfold m_call, s_call, m_assoc, s_assoc. rewrite S.
   destruct (c_fn c) eqn:F; try discriminate Hf; cbn in D, K.
   - apply andb_true_iff in D as [_ T]. f_equal.
     destruct (c_test c) eqn:E; try discriminate T; rewrite <- E in *; rewrite assoc_find_eq by exact T; reflexivity.
